@@ -10,6 +10,15 @@ use std::collections::{BTreeMap, BTreeSet};
 
 /// custom messages of failing value checks below a record node
 fn failing_messages(n: &J, out: &mut BTreeSet<String>) {
+    // only what lies on a path of FAIL nodes below the rule can be a cause of the rule's failure:
+    // nothing is collected below a clause, block, disjunction, condition or filter that did not FAIL
+    if !n["container"].get("ClauseValueCheck").is_some() {
+        if let Some(st) = super::c02::node_status(n) {
+            if st != St::Fail {
+                return;
+            }
+        }
+    }
     if let Some(cv) = n["container"].get("ClauseValueCheck") {
         if let J::Object(o) = cv {
             for (_, v) in o {
